@@ -138,7 +138,8 @@ class Evaluator:
         if name in self.vc.defs:
             v = self.ev(self.vc.defs[name])
         elif name in getattr(self.vc, "fbits", {}):
-            v = ("fbits", self.ev(self.vc.fbits[name]))  # the bit pattern of that float value
+            inner = self.ev(self.vc.fbits[name])  # the bit pattern of that float value
+            v = self.dom.fbits(inner) if hasattr(self.dom, "fbits") else ("fbits", inner)
         elif name in self.vc.decls:
             v = self.dom.atom(name, self.vc.decls[name])
         elif name in ("true", "false"):
@@ -587,10 +588,23 @@ class UFDom:
     def constarray(self, v):
         return self.mk("constarray", v)
 
+    def _ids(self, args):
+        return [self.mk("rm", a[1]) if isinstance(a, tuple) else a for a in args]
+
+    def fbits(self, x):
+        return self.mk("fbits", x)
+
     def indexed(self, op, idx, args):
+        args = self._ids(args)
+        if len(args) == 1 and self.nodes[args[0]][0] == "fbits":
+            if op == "to_fp":
+                return self.nodes[args[0]][1]  # bits of a float read back as that float
+            if op == "extract" and list(idx) == [63, 0]:
+                return args[0]
         return self.mk("ix", op, tuple(idx), tuple(args))
 
     def apply(self, op, args):
+        args = self._ids(args)
         # resolve selects over stores with concrete, distinct indices so that memory traffic does not
         # hide the data flow; everything else stays uninterpreted
         if op == "select":
